@@ -86,7 +86,7 @@ pub fn convert_cntrl_flow(
                             ctx,
                         )?;
                         if !is_pattern(&pattern) {
-                            let msg = "Match case must be a literal, identifier, or tuple of these";
+                            let msg = "match case which is not a literal, identifier, or tuple of these";
                             return Err(Box::from(UnimplementedErr::new(cond, msg)));
                         }
 
